@@ -81,6 +81,7 @@ class Crate:
         self.impls = d['items']['impls']
         self.statics = d['items']['statics']
         self.freeze = {f['ty']: f['freeze'] for f in d['items']['freeze']}
+        build_inlined_view(self)
 
 class Facts:
     def __init__(self, directory):
@@ -278,3 +279,146 @@ if __name__ == '__main__':
             if want in name:
                 print('//', c.name, c.kind, name, t['span']['loc'])
                 print(pp(t['body']))
+
+# ---------------------------------------------------------------------------------------------
+# helper inlining: a view of the THIR in which calls to *new* small local helper functions are replaced by their bodies.
+# "New" = not in the table of function names confirmed on the pinned tree (rules/baseline_fns.json): the engines' anchors are
+# exactly those names, so extracting part of an anchored function into a helper must not hide that part from the rules.
+
+import copy as _copy
+_BASELINE = None
+def baseline_fns():
+    global _BASELINE
+    if _BASELINE is None:
+        p = os.path.join(os.path.dirname(os.path.abspath(__file__)), 'baseline_fns.json')
+        try:
+            with open(p) as f: _BASELINE = set(json.load(f))
+        except OSError:
+            _BASELINE = set()
+    return _BASELINE
+
+def _simple_arg(e):
+    while isinstance(e, dict) and e.get('k') in ('Borrow', 'Deref', 'Use', 'PointerCoercion', 'NeverToAny'):
+        e = e.get('arg') or e.get('source')
+    if not isinstance(e, dict): return False
+    if e['k'] in ('VarRef', 'UpvarRef', 'Literal', 'NamedConst', 'ZstLiteral'): return True
+    if e['k'] == 'Field': return _simple_arg(e['lhs'])
+    if e['k'] == 'Closure': return True
+    if e['k'] == 'Call' and len(e.get('args', [])) == 1 and callee_decl(e) in ('std::ops::Deref::deref', 'std::convert::AsRef::as_ref', 'std::clone::Clone::clone', 'std::borrow::Borrow::borrow'):
+        return _simple_arg(e['args'][0])
+    return False
+
+def _all_nodes(x):
+    """every dict node below x (including patterns and statements)"""
+    stack = [x]
+    while stack:
+        y = stack.pop()
+        if isinstance(y, dict):
+            yield y
+            stack.extend(y.values())
+        elif isinstance(y, list):
+            stack.extend(y)
+
+class Inliner:
+    def __init__(self, crate):
+        self.c = crate
+        self.n = 0
+        self.inlined = []       # (caller, callee)
+        self.base = baseline_fns()
+    def candidate(self, g, caller):
+        c = self.c
+        if g is None or g == caller or g in self.base or g not in c.thir or '{closure' in g: return False
+        f = c.fns.get(g)
+        if f is None or f['kind'] not in ('Fn', 'AssocFn'): return False
+        t = c.thir[g]
+        for p in t['params']:
+            if 'pat' not in p: return False
+            q = p['pat']
+            while q['k'] in ('Deref', 'DerefPattern'): q = q['sub']
+            if q['k'] not in ('Binding', 'Wild'): return False
+            if q['k'] == 'Binding' and (q.get('sub') is not None): return False
+        for x in _all_nodes(t['body']):
+            if x.get('k') == 'Return': return False
+            if x.get('k') == 'Call' and callee_name(x) == g: return False
+        return True
+    def subst(self, node, m, clos):
+        """deep copy of node with variables in m replaced; closures cloned with the same substitution"""
+        if isinstance(node, list): return [self.subst(x, m, clos) for x in node]
+        if not isinstance(node, dict): return node
+        if node.get('k') in ('VarRef', 'UpvarRef') and node.get('var') in m:
+            return _copy.deepcopy(m[node['var']])
+        out = {k: self.subst(v, m, clos) for k, v in node.items()}
+        if node.get('k') == 'Closure' and canon(node.get('def', '')) in self.c.thir:
+            old = canon(node['def'])
+            self.n += 1
+            new = '%s@inl%d' % (old, self.n)
+            ct = self.c.thir[old]
+            nt = dict(ct); nt['def'] = new
+            nt['body'] = self.subst(ct['body'], m, clos)
+            nt['params'] = _copy.deepcopy(ct['params'])
+            self.c.ithir[new] = nt
+            out['def'] = new
+        return out
+    def expand(self, node, caller, depth):
+        if isinstance(node, list): return [self.expand(x, caller, depth) for x in node]
+        if not isinstance(node, dict): return node
+        out = {k: self.expand(v, caller, depth) for k, v in node.items()}
+        if out.get('k') == 'Closure' and canon(out.get('def', '')) in self.c.thir and '@inl' not in out['def']:
+            # closures of the caller: expand inside them too (under a fresh name so the raw body stays untouched)
+            old = canon(out['def'])
+            ct = self.c.thir[old]
+            nb = self.expand(ct['body'], caller, depth)
+            if nb != ct['body']:
+                self.n += 1
+                new = '%s@inl%d' % (old, self.n)
+                nt = dict(ct); nt['def'] = new; nt['body'] = nb
+                self.c.ithir[new] = nt
+                out['def'] = new
+        if out.get('k') == 'Call' and depth < 4:
+            g = callee_name(out)
+            if self.candidate(g, caller):
+                t = self.c.thir[g]
+                m = {}; lets = []
+                ok = len(t['params']) == len(out['args'])
+                if ok:
+                    for p, a in zip(t['params'], out['args']):
+                        q = p['pat']
+                        while q['k'] in ('Deref', 'DerefPattern'): q = q['sub']
+                        if q['k'] == 'Wild': continue
+                        uses = sum(1 for x in _all_nodes(t['body']) if x.get('k') in ('VarRef', 'UpvarRef') and x.get('var') == q['var'])
+                        for cl in _all_nodes(t['body']):
+                            if cl.get('k') == 'Closure' and canon(cl.get('def', '')) in self.c.thir:
+                                uses += sum(1 for x in _all_nodes(self.c.thir[canon(cl['def'])]['body']) if x.get('k') in ('VarRef', 'UpvarRef') and x.get('var') == q['var'])
+                        if _simple_arg(a) or uses <= 1: m[q['var']] = a
+                        else: lets.append({'k': 'Let', 'pat': p['pat'], 'init': a, 'else': None, 'loc': out.get('loc')})
+                    body = self.subst(t['body'], m, None)
+                    body = self.expand(body, caller, depth + 1)
+                    self.inlined.append((caller, g))
+                    b = body
+                    while isinstance(b, dict) and (b.get('k') in ('Use', 'NeverToAny') or (b.get('k') == 'Block' and not b['stmts'] and b['expr'] is not None)):
+                        b = b['source'] if b.get('k') != 'Block' else b['expr']
+                    if not lets:
+                        r = dict(b); r['inlined_from'] = g
+                        return r
+                    body = b
+                    if lets:
+                        return {'k': 'Block', 'stmts': lets, 'expr': body, 'loc': out.get('loc'), 'ty': out.get('ty'), 'inlined_from': g, 'targeted_by_break': False, 'safety': 'Safe'}
+                    r = dict(body); r['inlined_from'] = g
+                    return r
+        return out
+
+def build_inlined_view(c):
+    """c.ithir: like c.thir, with new helper functions inlined into their callers (the raw c.thir is left untouched)"""
+    base = baseline_fns()
+    new = [g for g in c.thir if g not in base and '{closure' not in g and c.fns.get(g, {}).get('kind') in ('Fn', 'AssocFn')]
+    c.ithir = dict(c.thir)
+    c.inlined = []
+    if not new or not base: return
+    inl = Inliner(c)
+    for name, t in list(c.thir.items()):
+        if '{closure' in name: continue
+        nb = inl.expand(t['body'], name, 0)
+        if inl.inlined and nb != t['body']:
+            nt = dict(t); nt['body'] = nb
+            c.ithir[name] = nt
+    c.inlined = sorted(set(inl.inlined))
